@@ -21,6 +21,15 @@ def classify_mc(rep):
     return None
 
 
+def greedy_stall(p, r):
+    """class of the known finding greedy-finished-clause-in-loop-stalls: the stalling state is an ordinary, non-accepting state of a
+    program with a greedy case inside a loop that has only explicit byte moves (no Else / End fallback at all)"""
+    import re
+    stq = p.m['states'][r['q']] if 0 <= r.get('q', -1) < len(p.m['states']) else None
+    return bool(stq and stq['kind'] == 'normal' and not stq['acc'] and stq['trans'] and all(t['on'] and not t['els'] and not t['end'] for t in stq['trans'])
+                and re.search(r'loop\s*\w*\s*\{', p.src) and 'greedy case' in p.src)
+
+
 def pinned(chk):
     """re-run the pinned witness of every known finding of this property"""
     import os
@@ -64,6 +73,16 @@ def run(tier, seed):
         lvl = ['-O3', '-O1', '-O2', '-O0'][i % 4]
         items.append(('proto:%d' % s, src, [lvl, '-fyield-support']))
         proto.append((('proto:%d' % s, src, [lvl, '-fyield-support']), ast))
+    # end-of-input family: `end` patterns followed by actions and finish codes, handlers that finish - the codes _end must return
+    nfin = 0
+    for i in range(12 if quick else 50):
+        s = rng.randrange(1 << 30)
+        esrc = genprog.gen_end_program(s)[1]
+        while i % 2 and 'finish' not in esrc:          # every other one reaches a finish statement at the end of input
+            s = rng.randrange(1 << 30)
+            esrc = genprog.gen_end_program(s)[1]
+        nfin += 'finish' in esrc
+        items.append(('end:%d' % s, esrc, ['-feof-support', '-findirect-start-ptr'] + rng.choice([[], ['-O3'], ['-fstrict-done-token-generation']])))
     pinned(chk)
     # ... and the same programs against the procedural reading: DONE / finish codes exactly when the program finishes,
     # every yield code reported exactly once and in order
@@ -103,6 +122,8 @@ def run(tier, seed):
                         stq = p.m['states'][r['q']] if 0 <= r.get('q', -1) < len(p.m['states']) else None
                         if stq and stq['kind'] == 'normal' and stq['trans'] and all(not t['on'] and not t['els'] and not t['end'] for t in stq['trans']):
                             fid = 'cond-point-at-end-stalls'
+                        elif greedy_stall(p, r):
+                            fid = 'greedy-finished-clause-in-loop-stalls'
                     chk.violation('%s: %s %s history %s -> calls %s' % (r['kind'], p.name, p.args, r['hist'], detail['calls'][-4:]),
                                   {'program': p.name, 'args': p.args, 'source': p.src, 'history': r['hist'], 'kind': r['kind'], 'calls': detail['calls']}, fid)
                 elif ok is False:
@@ -124,6 +145,8 @@ def run(tier, seed):
             stq = q.m['states'][r['q']] if 0 <= r.get('q', -1) < len(q.m['states']) else None
             if stq and stq['kind'] == 'normal' and stq['trans'] and all(not t['on'] and not t['els'] and not t['end'] for t in stq['trans']):
                 return 'cond-point-at-end-stalls'
+            if greedy_stall(q, r):
+                return 'greedy-finished-clause-in-loop-stalls'
             return None
         est, ecount, econf = enumfam.machine_reports(chk, e_ok, ('STALL', 'FAILNOTABS'), e_classify, budget=3000 if quick else 20000,
                                                      timeout=1600 if quick else 9000, post=2)
